@@ -87,6 +87,9 @@ func (s *storageAdapter) executeQuery(ctx context.Context) {
 	case promql.Matrix:
 		s.series = make([]engstore.SignedSeries, len(val))
 		for i, series := range val {
+			// The query is closed when this function returns, after which an engine
+			// may reuse the memory of its result: keep a copy of the points.
+			series.Points = append([]promql.Point(nil), series.Points...)
 			s.series[i] = engstore.SignedSeries{
 				Signature: uint64(i),
 				Series:    promql.NewStorageSeries(series),
